@@ -253,12 +253,18 @@ class Block(Entity):
             raise exceptions.DuplicateName("create_data_array")
         if compression == Compression.Auto:
             compression = self._compr
-        da = DataArray.create_new(self.file, self, data_arrays, name, array_type,
-                                  dtype, shape, compression)
-        if data is not None:
-            da.write_direct(data)
-        da.unit = unit
-        da.label = label
+        try:
+            da = DataArray.create_new(self.file, self, data_arrays, name,
+                                      array_type, dtype, shape, compression)
+            if data is not None:
+                da.write_direct(data)
+            da.unit = unit
+            da.label = label
+        except Exception:
+            # do not leave a half-built data array behind
+            if name in data_arrays:
+                del data_arrays[name]
+            raise
         return da
 
     def create_data_frame(self, name="", type_="", col_dict=None,
